@@ -250,4 +250,95 @@ def C09(tier):
     return jobs, floors, rule
 
 
-PROPS = {"C01": C01, "C02": C02, "C03": C03, "C04": C04, "C05": C05, "C07": C07, "C08": C08, "C09": C09}
+def C06(tier):
+    m = 1 if tier == "quick" else 12
+    jobs = []
+    for i, mode in enumerate(["self", "barrier", "foreign", "conc", "inactive"]):
+        jobs.append(hj("h_suspend", 8 * m, first=i * 1000, mode=mode))
+        jobs.append(hj("h_suspend", 6 * m, first=i * 1000 + 500, mode=mode, ncpu=[4, 2, 4, 2, 1][i], scale=60))
+    jobs += [hj("h_suspend", 5 * m, first=7000, mode="foreign", ncpu=1, scale=30), hj("h_suspend", 5 * m, first=7100, mode="self", ncpu=1, scale=30)]
+    jobs += [hj("h_suspend", 5 * m, first=8000, flavor="asan", scale=30, timeout=600)]
+    if tier == "thorough":
+        jobs += [hj("h_suspend", 20 * m, first=9000, flavor="dbg", scale=60, timeout=1800)]
+        for t in jobs:
+            t.timeout = 1800
+    floors = {
+        "items": 200000 * (1 if tier == "quick" else 8),
+        "intervals_checked": 5000,
+        "deep_nesting_intervals": 100,                 # nesting beyond the inline suspend count
+        "foreign_intervals_with_one_start": 100,       # the <=1 bound is tight: the committed item is observed
+        "site:_dispatch_lane_suspend_slow:3": 100,     # transfer to the side suspend count
+        "site:_dispatch_lane_resume_slow:3": 100,      # and back
+        "self": 10, "barrier": 10, "foreign": 10, "conc": 10, "inactive": 10,
+    }
+    rule = ("one case = one trial of one scenario (self-suspend on a serial queue, barrier-suspend on a concurrent queue, foreign "
+            "suspends of a serial queue, foreign suspends of a concurrent queue, initially-inactive queue with racing submissions, "
+            "retarget, pre-activation suspends) with 2-6 submitting threads, nesting depths 1-300, resumes from threads / other "
+            "queues / dispatch_after, under a perturbation profile and affinity mask; oracle: no item start inside a definitely-"
+            "suspended interval (at most one for foreign suspends of a serial queue), none before activate, everything pending runs "
+            "after the last resume; non-trivial = at least one suspension interval was checked in the trial")
+    return jobs, floors, rule
+
+
+def C10(tier):
+    m = 1 if tier == "quick" else 12
+    jobs = []
+    for i in range(5):
+        jobs.append(hj("h_apply", 8 * m, first=i * 8 * m))
+    jobs += [hj("h_apply", 5 * m, first=2000, ncpu=1, scale=30), hj("h_apply", 6 * m, first=2100, ncpu=2, scale=50), hj("h_apply", 6 * m, first=2200, ncpu=4),
+             hj("h_apply", 6 * m, first=2300, ncpu=8)]
+    jobs += [hj("h_apply", 4 * m, first=3000, flavor="asan", scale=25, timeout=600), hj("h_apply", 3 * m, first=3100, flavor="asan", scale=25, ncpu=2, timeout=600)]
+    if tier == "thorough":
+        for t in jobs:
+            t.timeout = 1800
+    floors = {
+        "applies": 3000 * (1 if tier == "quick" else 8),
+        "iterations": 3000000 * (1 if tier == "quick" else 8),
+        "serial_domain_applies": 300,
+        "concurrent_queue_applies": 300,
+        "nested_applies": 500,
+        "applies_run_by_several_threads": 300,
+        "barrier_apply_pairs_checked": 1000,
+        "site:_dispatch_apply_invoke2:4": 10000,
+    }
+    rule = ("one case = one dispatch_apply call (n in {0,1,2,cpu-1,cpu,cpu+1,3..100000}) on a global queue, DISPATCH_APPLY_AUTO, a "
+            "serial queue, a concurrent queue, or a two-level chain, from 1-6 foreign threads or from inside an item, nested to depth "
+            "2, with barriers submitted concurrently to the concurrent queues, under a perturbation profile and affinity mask; oracle: "
+            "per-index counters, bodies inside [call,return], index order on serial domains, no overlap with / correct order after "
+            "barriers, a barrier after the apply must run; trial line = one batch of applies; non-trivial = some apply of the batch "
+            "was executed by more than one thread")
+    return jobs, floors, rule
+
+
+def C19(tier):
+    m = 1 if tier == "quick" else 12
+    jobs = []
+    for i in range(5):
+        jobs.append(hj("h_block", 8 * m, first=i * 8 * m))
+    jobs += [hj("h_block", 5 * m, first=2000, ncpu=1, scale=30), hj("h_block", 6 * m, first=2100, ncpu=2, scale=50), hj("h_block", 6 * m, first=2200, ncpu=4)]
+    jobs += [hj("h_block", 6 * m, first=2500, mode="window")]
+    jobs += [hj("h_block", 4 * m, first=3000, flavor="asan", scale=30, timeout=600), hj("h_block", 3 * m, first=3100, flavor="asan", mode="window", timeout=600)]
+    if tier == "thorough":
+        for t in jobs:
+            t.timeout = 1800
+    floors = {
+        "block_cases": 30000 * (1 if tier == "quick" else 8),
+        "cancelled_before_start_skipped": 5000,
+        "cancel_raced_start_ran": 200,
+        "cancel_raced_start_skipped": 200,
+        "block_waits_ok": 10000,
+        "block_waits_timed_out": 100,
+        "block_notifications": 20000,
+        "window_stall_reached": 30,
+    }
+    rule = ("one case = one block object (random creation flags / QoS) executed exactly once through async, barrier_async, sync, "
+            "group_async or direct invocation; a driver and a racer thread submit / wait (forever or timed, retried after time-outs) / "
+            "register 0-3 notifications / cancel in random real-time orders, plus constructed orders (cancel before submission, cancel "
+            "behind a gate item, cancel while the body is running, wait concurrent with the submission via a directed stall); oracle "
+            "over stamps: wait==0 only after the body's end and after execution, time-out only after the deadline, each notification "
+            "once and after completion, cancelled-before-start never runs, testcancel from cancel on; trial line = batch of cases; "
+            "non-trivial = the batch contained time-outs and cancelled-before-start cases")
+    return jobs, floors, rule
+
+
+PROPS = {"C01": C01, "C02": C02, "C03": C03, "C04": C04, "C05": C05, "C06": C06, "C07": C07, "C08": C08, "C09": C09, "C10": C10, "C19": C19}
